@@ -13,6 +13,10 @@ PROPS = {
         "vx": ["cone"],
         "level": "proof",
     },
+    "C05": {
+        "vx": ["smt_sorts"],
+        "level": "proof",
+    },
     "C08": {
         "vx": ["btor2_lower"],
         "ax": True,
@@ -24,6 +28,11 @@ PROPS = {
     },
     "C13": {
         "vx": ["meta"],
+        "level": "proof",
+    },
+    "C14": {
+        "vx": ["smt_patterns"],
+        "ax": True,
         "level": "proof",
     },
     "C15": {
